@@ -200,6 +200,7 @@ TYPE_SEQS = [
     (['vector', '<', 'NDSize', '>'], 'vec_NDSize'),
     (['vector', '<', 'DataView', '>'], 'vec_DataView'),
     (['NDSizeBase', '<', 'T', '>'], 'NDSize'),
+    (['NDSizeBase'], 'NDSize'),
     (['NDSize', '::', 'value_type'], 'ndsize_t'),
     (['string'], 'nstring'),
 ]
@@ -284,9 +285,19 @@ def r_enums(ctx, toks):
     return out
 
 def r_misc(ctx, toks):
-    """numeric_limits<double>::epsilon(), nullptr, bool literals stay (stdbool)"""
+    """numeric_limits<double>::epsilon(), nullptr, new T[n], delete[] p; bool literals stay (stdbool)"""
     out = []; i = 0
     while i < len(toks):
+        if toks[i].t == 'new' and i + 2 < len(toks) and toks[i + 1].k == 'id' and toks[i + 2].t == '[':
+            e = match_close(toks, i + 2)
+            out.extend([P('(', toks[i].ws), Tok('id', toks[i + 1].t, ''), P('*', ' '), P(')', ''), Tok('id', 'nix_new_array', ''), P('(', '')])
+            out.extend(toks[i + 3:e]); out.extend([P(',', ''), Tok('id', 'sizeof', ' '), P('(', ''), Tok('id', toks[i + 1].t, ''), P(')', ''), P(')', '')])
+            i = e + 1; fire(ctx, 'new-array'); continue
+        if toks[i].t == 'delete' and seq_at(toks, i + 1, ['[', ']']):
+            j = i + 3
+            while toks[j].t != ';': j += 1
+            out.extend([Tok('id', 'free', toks[i].ws), P('(', '')]); out.extend(toks[i + 3:j]); out.append(P(')', ''))
+            i = j; fire(ctx, 'delete-array'); continue
         if seq_at(toks, i, ['numeric_limits', '<', 'double', '>', '::', 'epsilon', '(', ')']):
             out.append(Tok('id', 'DBL_EPSILON', toks[i].ws)); i += 8; fire(ctx, 'dbl-epsilon'); continue
         if seq_at(toks, i, ['numeric_limits', '<', 'double', '>', '::', 'max', '(', ')']):
@@ -655,6 +666,24 @@ def class_of(ctx, name):
         return ctx.env[name][0]
     return None
 
+def member_type(ctx, name):
+    return (ctx.unit.get('member_types') or {}).get(name)
+
+def path_before(ctx, out):
+    """tail of out is 'self -> m' with m a class-typed data member: (start, class, pointer-expression tokens)"""
+    if len(out) >= 3 and out[-1].k == 'id' and out[-2].t == '->' and out[-3].t == 'self':
+        c = member_type(ctx, out[-1].t)
+        if c in ctx.unit.get('classes', ()):
+            return len(out) - 3, c, [P('&', ''), Tok('id', 'self', ''), P('->', ''), Tok('id', out[-1].t, '')]
+    return None
+
+def path_after(ctx, toks, i):
+    if seq_at(toks, i, ['self', '->']) and i + 2 < len(toks) and toks[i + 2].k == 'id':
+        c = member_type(ctx, toks[i + 2].t)
+        if c in ctx.unit.get('classes', ()) and (i + 3 >= len(toks) or toks[i + 3].t not in ('.', '->', '(', '[')):
+            return i + 3, c, [P('&', ''), Tok('id', 'self', ''), P('->', ''), Tok('id', toks[i + 2].t, '')]
+    return None
+
 def addr(ctx, name, ws=''):
     """expression for 'pointer to name'"""
     if name == 'self' or (name in ctx.env and ctx.env[name][1]):
@@ -698,6 +727,8 @@ def operand_before(ctx, out):
     t = out[-1]
     if t.k == 'id' and class_of(ctx, t.t) and (len(out) < 2 or out[-2].t not in ('.', '->')):
         return len(out) - 1, class_of(ctx, t.t), addr(ctx, t.t)
+    pb = path_before(ctx, out)
+    if pb: return pb
     # ( * self )
     if len(out) >= 4 and [x.t for x in out[-4:]] == ['(', '*', 'self', ')'] and ctx.unit.get('cls'):
         return len(out) - 4, ctx.unit['cls'], [Tok('id', 'self', '')]
@@ -713,6 +744,14 @@ def operand_after(ctx, toks, i):
     t = toks[i]
     if t.k == 'id' and class_of(ctx, t.t) and (i + 1 >= len(toks) or toks[i + 1].t not in ('.', '->', '(', '[')):
         return i + 1, class_of(ctx, t.t), addr(ctx, t.t)
+    pa = path_after(ctx, toks, i)
+    if pa: return pa
+    # call returning a class value:  f ( ... )   [not followed by a member access]
+    if t.k == 'id' and t.t in ctx.sigs and ctx.sigs[t.t]['ret'] in ctx.unit.get('classes', ()) and i + 1 < len(toks) and toks[i + 1].t == '(':
+        e = match_close(toks, i + 1)
+        if e + 1 >= len(toks) or toks[e + 1].t not in ('.', '->', '['):
+            c = ctx.sigs[t.t]['ret']
+            return e + 1, c, [Tok('id', 'TMP_' + c, ''), P('(', '')] + toks[i:e + 1] + [P(')', '')]
     if seq_at(toks, i, ['(', '*', 'self', ')']) or seq_at(toks, i, ['*', 'this']):
         ln = 4 if toks[i].t == '(' else 2
         return i + ln, ctx.unit.get('cls'), [Tok('id', 'self', '')]
@@ -742,7 +781,15 @@ def r_class_ops(ctx, toks):
                     e, _, rt = rhs
                     ws = out[s].ws
                     del out[s:]
-                    out.append(Tok('id', '%s_%s' % (c, OPNAMES[t.t]), ws)); out.append(P('(', ''))
+                    fname = '%s_%s' % (c, OPNAMES[t.t])
+                    if t.t in ('+', '-'):
+                        # free operator+(NDSize lhs, const NDSize &rhs): lhs is passed BY VALUE = copy-constructed
+                        if lt and lt[0].t == 'TMP_' + c:
+                            lt = lt[2:-1]                       # a temporary is moved, not copied
+                        else:
+                            fname += '_cc'                      # call adapter: copy-construct the parameter, then the body
+                            fire(ctx, 'by-value-copy')
+                    out.append(Tok('id', fname, ws)); out.append(P('(', ''))
                     out.extend(lt); out.append(P(',', '')); out.extend(rt); out.append(P(')', ''))
                     i = e; fire(ctx, 'class-op:' + t.t); continue
                 # class OP scalar (e.g. NDSize -= 1)
@@ -773,10 +820,11 @@ def r_class_ops(ctx, toks):
                 idx = r_class_ops(ctx, toks[i + 2:e])
                 # lvalue use:  a[i] = / += ...
                 nxt = toks[e + 1].t if e + 1 < n else ''
-                if nxt in ('=', '+=', '-=', '*=', '/=') :
-                    out.append(P('(', t.ws)); out.append(P('*', '')); out.append(Tok('id', c + '_at', '')); out.append(P('(', ''))
-                    out.extend(addr(ctx, t.t)); out.append(P(',', '')); out.extend(idx); out.append(P(')', '')); out.append(P(')', ''))
-                    ctx.unit.setdefault('_lvalue_index', True)
+                if (c + '_at') in ctx.sigs:
+                    # operator[] returns a reference: (*NIX_NT_p(Cls_at(&a, i)))
+                    out.append(P('(', t.ws)); out.append(P('*', '')); out.append(Tok('id', 'NIX_NT_p', '')); out.append(P('(', ''))
+                    out.append(Tok('id', c + '_at', '')); out.append(P('(', ''))
+                    out.extend(addr(ctx, t.t)); out.append(P(',', '')); out.extend(idx); out.append(P(')', '')); out.append(P(')', '')); out.append(P(')', ''))
                 else:
                     out.append(Tok('id', c + '_index', t.ws)); out.append(P('(', ''))
                     out.extend(addr(ctx, t.t)); out.append(P(',', '')); out.extend(idx); out.append(P(')', ''))
@@ -791,17 +839,249 @@ def r_class_ops(ctx, toks):
     return out
 
 def r_methods(ctx, toks):
-    """x.method(args) with x class-typed -> Cls_method(&x, args)"""
+    """x.method(args) with x class-typed -> Cls_method(&x, args); also self->m.method(args) and f(...).method(args)"""
     out = []; i = 0; n = len(toks)
     while i < n:
         t = toks[i]
+        # self -> m . method (
+        if t.t == 'self' and seq_at(toks, i + 1, ['->']) and i + 5 < n and toks[i + 2].k == 'id' and toks[i + 3].t == '.' \
+                and toks[i + 4].k == 'id' and toks[i + 5].t == '(' and member_type(ctx, toks[i + 2].t):
+            c = member_type(ctx, toks[i + 2].t)
+            e = match_close(toks, i + 5)
+            name = '%s_%s' % (c, toks[i + 4].t)
+            name = resolve_overload(ctx, name, toks[i + 6:e])
+            out.append(Tok('id', name, t.ws)); out.append(P('(', ''))
+            out.extend([P('&', ''), Tok('id', 'self', ''), P('->', ''), Tok('id', toks[i + 2].t, '')])
+            if e > i + 6: out.append(P(',', ''))
+            i += 6; fire(ctx, 'method-call-member'); continue
+        # f ( ... ) . method (   with f returning a class value
+        if t.k == 'id' and t.t in ctx.sigs and ctx.sigs[t.t]['ret'] in ctx.unit.get('classes', ()) and i + 1 < n and toks[i + 1].t == '(' \
+                and (not out or out[-1].t not in ('.', '->')):
+            e0 = match_close(toks, i + 1)
+            if e0 + 3 < n and toks[e0 + 1].t == '.' and toks[e0 + 2].k == 'id' and toks[e0 + 3].t == '(':
+                c = ctx.sigs[t.t]['ret']
+                e = match_close(toks, e0 + 3)
+                inner = r_methods(ctx, toks[i:e0 + 1])
+                out.append(Tok('id', '%s_%s' % (c, toks[e0 + 2].t), t.ws)); out.append(P('(', ''))
+                out.extend([Tok('id', 'TMP_' + c, ''), P('(', '')] + inner + [P(')', '')])
+                if e > e0 + 4: out.append(P(',', ''))
+                i = e0 + 4; fire(ctx, 'method-call-temp'); continue
         if t.k == 'id' and class_of(ctx, t.t) and i + 3 < n and toks[i + 1].t in ('.', '->') and toks[i + 2].k == 'id' and toks[i + 3].t == '(' \
                 and (not out or out[-1].t not in ('.', '->')):
             c = class_of(ctx, t.t)
             e = match_close(toks, i + 3)
-            out.append(Tok('id', '%s_%s' % (c, toks[i + 2].t), t.ws)); out.append(P('(', ''))
+            out.append(Tok('id', resolve_overload(ctx, '%s_%s' % (c, toks[i + 2].t), toks[i + 4:e]), t.ws)); out.append(P('(', ''))
             out.extend(addr(ctx, t.t))
             if e > i + 4: out.append(P(',', ''))
             i += 4; fire(ctx, 'method-call'); continue
+        out.append(t); i += 1
+    return out
+
+def r_return_ref(ctx, toks):
+    """function returns a reference (C: pointer): return EXPR; -> return &(EXPR);"""
+    out = []; i = 0; n = len(toks)
+    while i < n:
+        t = toks[i]
+        if t.k == 'id' and t.t == 'return' and toks[i + 1].t != ';':
+            j = i + 1; d = 0
+            while not (toks[j].t == ';' and d == 0):
+                if toks[j].k == 'punct' and toks[j].t in '([{': d += 1
+                elif toks[j].k == 'punct' and toks[j].t in ')]}': d -= 1
+                j += 1
+            out.append(t); out.append(P('&')); out.append(P('(', '')); out.extend(toks[i + 1:j]); out.append(P(')', ''))
+            i = j; fire(ctx, 'return-ref'); continue
+        out.append(t); i += 1
+    return out
+
+def resolve_overload(ctx, name, argtoks):
+    """overloaded member functions are distinct C functions: NAME, or NAME_<n> by argument count, or per-unit map"""
+    ov = ctx.unit.get('overloads') or {}
+    if name in ov:
+        n = len(split_args(argtoks))
+        tgt = ov[name]
+        if isinstance(tgt, dict):
+            if n not in tgt: raise ExtractError('no overload of %s with %d arguments' % (name, n))
+            return tgt[n]
+        return tgt
+    return name
+
+def r_ctor_init(ctx, init_toks):
+    """constructor initialiser list  m(std::move(x)), n(y)  ->  self->m = x; self->n = y;"""
+    out = []
+    for a in split_args(init_toks):
+        if not a: continue
+        if a[0].k != 'id' or a[1].t != '(':
+            raise ExtractError('unsupported constructor initialiser')
+        inner = a[2:-1]
+        if len(inner) >= 3 and inner[0].t == 'move' and inner[1].t == '(':
+            inner = inner[2:-1]; fire(ctx, 'std-move')
+        out.extend([Tok('id', 'self', ' '), P('->', ''), Tok('id', a[0].t, ''), P('=')]); out.extend(inner); out.append(P(';', ''))
+        fire(ctx, 'ctor-init')
+    return out
+
+def r_local_refs(ctx, toks):
+    """const Cls &name = COND ? a : b;   ->   const Cls *name = COND ? <ptr a> : <ptr b>;   (a, b lvalues)"""
+    out = []; i = 0; n = len(toks)
+    while i < n:
+        t = toks[i]
+        if t.k == 'id' and t.t in ctx.unit.get('classes', ()) and i + 3 < n and toks[i + 1].t == '&' and toks[i + 2].k == 'id' and toks[i + 3].t == '=':
+            name = toks[i + 2].t
+            j = i + 4
+            while toks[j].t != ';': j += 1
+            rhs = toks[i + 4:j]
+            q = [k for k, x in enumerate(rhs) if x.t == '?']
+            c = [k for k, x in enumerate(rhs) if x.t == ':']
+            if len(q) != 1 or len(c) != 1:
+                raise ExtractError('unsupported reference initialiser for %s' % name)
+            def lv(ts):
+                ts = [x for x in ts]
+                if len(ts) == 1 and ts[0].k == 'id' and ts[0].t in ctx.env:
+                    return addr(ctx, ts[0].t, ' ')
+                if [x.t for x in ts[:2]] == ['self', '->'] and len(ts) == 3:
+                    return [P('&', ' ')] + ts
+                raise ExtractError('reference bound to non-lvalue')
+            out.extend([t, P('*', ' '), Tok('id', name, ''), P('=')]); out.extend(rhs[:q[0] + 1]); out.extend(lv(rhs[q[0] + 1:c[0]]))
+            out.append(P(':')); out.extend(lv(rhs[c[0] + 1:])); out.append(P(';', ''))
+            ctx.env[name] = (t.t, True)
+            i = j + 1; fire(ctx, 'local-ref'); continue
+        out.append(t); i += 1
+    return out
+
+# ----------------------------------------------------------------------------------------------
+# exceptions: sequencing of may-throw calls (replaces r_maythrow_calls)
+
+def _stmt_bounds(toks):
+    """yield (start, end_exclusive, kind) for simple statements and if/while headers at any nesting depth.
+    kind: 'simple' (ends with ';'), 'cond' (tokens inside 'if (' ... ')' / 'while ('), 'for' (header of a for)"""
+    res = []
+    i = 0; n = len(toks)
+    start = 0
+    par = 0
+    while i < n:
+        t = toks[i]
+        if t.k == 'id' and t.t in ('if', 'while', 'switch') and i + 1 < n and toks[i + 1].t == '(' and par == 0:
+            e = match_close(toks, i + 1)
+            res.append((i + 2, e, 'cond', i))
+            i = e + 1; start = i; continue
+        if t.k == 'id' and t.t == 'for' and i + 1 < n and toks[i + 1].t == '(' and par == 0:
+            e = match_close(toks, i + 1)
+            res.append((i + 2, e, 'for', i))
+            i = e + 1; start = i; continue
+        if t.k == 'punct' and t.t in '([': par += 1
+        elif t.k == 'punct' and t.t in ')]': par -= 1
+        if par == 0 and t.k == 'punct' and t.t in ('{', '}'):
+            start = i + 1
+        elif par == 0 and t.k == 'id' and t.t in ('else', 'do'):
+            start = i + 1
+        elif par == 0 and t.t == ':' and i > 0 and (toks[i - 1].k in ('id', 'num')) and start < i and toks[start].t in ('case', 'default'):
+            start = i + 1
+        elif par == 0 and t.t == ';':
+            res.append((start, i, 'simple', start))
+            start = i + 1
+        i += 1
+    return res
+
+def r_hoist_throws(ctx, toks):
+    may = {c for c, s in ctx.sigs.items() if s.get('throws')}
+    if not may:
+        return toks
+    counter = [0]
+    CHECK = ' if (nix_exc) return NIX_RET_DEFAULT;'
+    def find_calls(seg):
+        """indices (in seg) of may-throw calls, innermost-leftmost first, with their close index"""
+        calls = []
+        for k, t in enumerate(seg):
+            if t.k == 'id' and t.t in may and k + 1 < len(seg) and seg[k + 1].t == '(' and (k == 0 or seg[k - 1].t not in ('.', '->')):
+                calls.append((k, match_close(seg, k + 1)))
+        # innermost first: sort by (end) ascending -> a nested call closes before its parent
+        calls.sort(key=lambda c: c[1])
+        return calls
+    def short_circuit_before(seg, k):
+        """is there a &&, ||, ? to the left of position k that governs it (same or outer nesting)?"""
+        d = 0
+        for j in range(k - 1, -1, -1):
+            t = seg[j]
+            if t.k == 'punct' and t.t in ')]': d += 1
+            elif t.k == 'punct' and t.t in '([':
+                d -= 1
+            elif d <= 0 and t.t in ('&&', '||', '?', ':'):
+                return True
+        return False
+    out = list(toks)
+    # process statements from the end so that indices stay valid
+    for (a, b, kind, anchor) in sorted(_stmt_bounds(out), key=lambda x: -x[0]):
+        seg = out[a:b]
+        if not any(t.k == 'id' and t.t in may for t in seg):
+            continue
+        if kind == 'for':
+            raise ExtractError('may-throw call in a for header: %r' % render(seg)[:80])
+        pre = []
+        whole_is_call = False
+        while True:
+            calls = find_calls(seg)
+            if not calls: break
+            k, e = calls[0]
+            # statement-level call:  f(...)   |  x = f(...)  |  T x = f(...)  |  return f(...)
+            rest_after = seg[e + 1:]
+            before = seg[:k]
+            is_top = not rest_after and (not before or before[-1].t in ('=', 'return')) and kind == 'simple'
+            if is_top and len(calls) == 1:
+                whole_is_call = True
+                break
+            if short_circuit_before(seg, k):
+                raise ExtractError('may-throw call %s under a short-circuit operator: needs a unit-specific rule' % seg[k].t)
+            rty = ctx.sigs[seg[k].t]['ret']
+            call = seg[k:e + 1]
+            if rty == 'void':
+                raise ExtractError('void may-throw call nested in an expression')
+            counter[0] += 1
+            tmp = '_t%d' % counter[0]
+            pre.extend(tokenize(' %s %s =' % (rty, tmp))); pre.extend(call); pre.append(P(';', '')); pre.extend(tokenize(CHECK))
+            seg = seg[:k] + [Tok('id', tmp, seg[k].ws)] + seg[e + 1:]
+            fire(ctx, 'hoist-maythrow')
+        if kind == 'cond':
+            # placement: the 'if' must start a statement
+            prev = out[anchor - 1].t if anchor > 0 else '{'
+            if prev == 'else':
+                raise ExtractError("may-throw call in an 'else if' condition: needs a unit-specific rule")
+            if prev not in (';', '{', '}'):
+                raise ExtractError('may-throw call in the condition of an unbraced nested statement')
+            if out[anchor].t == 'while':
+                raise ExtractError('may-throw call in a while condition')
+            out[a:b] = seg
+            out[anchor:anchor] = pre
+        else:
+            prev = out[a - 1].t if a > 0 else '{'
+            if pre and prev not in (';', '{', '}', ':'):
+                raise ExtractError('may-throw call in an unbraced nested statement: %r' % render(out[a:b])[:80])
+            tail = []
+            first = seg[0].t if seg else ''
+            if whole_is_call and first != 'return':
+                tail = tokenize(CHECK); fire(ctx, 'maythrow-check')
+            out[b + 1:b + 1] = tail          # after the ';'
+            out[a:b] = seg
+            out[a:a] = pre
+    return out
+
+def r_return_copy(ctx, toks, ret_c):
+    """function returns a class BY VALUE and the operand is an lvalue that outlives the call (member or
+    reference parameter): C++ copy-constructs the result -> return Cls_copy(&lvalue);"""
+    if ret_c not in ctx.unit.get('classes', ()):
+        return toks
+    out = []; i = 0; n = len(toks)
+    while i < n:
+        t = toks[i]
+        if t.k == 'id' and t.t == 'return':
+            j = i + 1
+            while toks[j].t != ';': j += 1
+            e = toks[i + 1:j]
+            ptr = None
+            if len(e) == 3 and e[0].t == 'self' and e[1].t == '->' and member_type(ctx, e[2].t) == ret_c:
+                ptr = [P('&', ''), e[0], e[1], e[2]]
+            elif len(e) == 1 and e[0].k == 'id' and e[0].t in ctx.env and ctx.env[e[0].t] == (ret_c, True):
+                ptr = [e[0]]
+            if ptr:
+                out.extend([t, Tok('id', ret_c + '_copy', ' '), P('(', '')] + ptr + [P(')', '')])
+                i = j; fire(ctx, 'return-copy'); continue
         out.append(t); i += 1
     return out
